@@ -14,6 +14,51 @@ class AnalysisError(Exception):
     """The checker cannot do its job (vanished anchor, vacuous rule, ...)."""
 
 
+def _target_root(t):
+    while isinstance(t, (ast.Attribute, ast.Subscript, ast.Starred)):
+        t = t.value
+    return t.id if isinstance(t, ast.Name) else None
+
+
+class _Explode(ast.NodeTransformer):
+    """`a, b = x, y` -> `a = x; b = y` where no right-hand side can observe an earlier target of the
+    same statement (normal form for all rules; positions are those of the original statement)"""
+    def visit_Assign(self, st):
+        self.generic_visit(st)
+        if not (len(st.targets) == 1 and isinstance(st.targets[0], ast.Tuple) and isinstance(st.value, ast.Tuple)
+                and len(st.targets[0].elts) == len(st.value.elts)
+                and not any(isinstance(x, ast.Starred) for x in st.targets[0].elts + st.value.elts)):
+            return st
+        tg = st.targets[0].elts
+        for k, v in enumerate(st.value.elts):
+            loaded = {x.id for x in ast.walk(v) if isinstance(x, ast.Name)}
+            texts = {ast.unparse(x) for x in ast.walk(v) if isinstance(x, (ast.Attribute, ast.Subscript))}
+            for t in tg[:k]:
+                root = _target_root(t)
+                if root is None:
+                    return st
+                if isinstance(t, ast.Name):
+                    if root in loaded:
+                        return st
+                elif isinstance(t, ast.Attribute) and root == 'self':
+                    if ast.unparse(t) in texts or any(x.startswith(ast.unparse(t)) for x in texts):
+                        return st
+                    if any(isinstance(x, ast.Call) for x in ast.walk(v)):
+                        return st       # a call may read the attribute
+                elif root in loaded:
+                    return st
+        out = []
+        for t, v in zip(tg, st.value.elts):
+            a = ast.Assign(targets=[t], value=v, type_comment=None)
+            ast.copy_location(a, st)
+            out.append(a)
+        return out
+
+
+def _explode_parallel(tree):
+    return ast.fix_missing_locations(_Explode().visit(tree))
+
+
 class Mod:
     def __init__(self, rel, src):
         self.rel = rel                                  # yalafi/parser.py
@@ -25,7 +70,7 @@ class Mod:
         self.short = '.'.join(parts[1:]) or 'yalafi'    # parser
         self.package = self.name if self.is_pkg else '.'.join(parts[:-1])
         self.src = src
-        self.tree = ast.parse(src, filename=rel)
+        self.tree = _explode_parallel(ast.parse(src, filename=rel))
         self.imports = {}       # local name -> ('mod', dotted) | ('sym', dotted, name)
         self.funcs = {}         # name -> Func (module level)
         self.classes = {}       # name -> Cls
@@ -108,16 +153,161 @@ def iter_scope_with_nested_heads(fnode):
     return iter_scope(fnode)
 
 
+def _scope_walk(fnode):
+    """nodes of the body of fnode without nested function / class bodies"""
+    stack = list(reversed(fnode.body))
+    while stack:
+        n = stack.pop()
+        yield n
+        if isinstance(n, (ast.FunctionDef, ast.AsyncFunctionDef, ast.Lambda, ast.ClassDef)):
+            continue
+        stack.extend(reversed(list(ast.iter_child_nodes(n))))
+
+
+def _inline_tail_helpers(mods):
+    """normal form: a helper function (module level, or a method called through self) that has exactly one
+    call site in the package, and that call site is `return helper(args)` with plain positional arguments,
+    is spliced into its caller: the return statement is replaced by `params = args` followed by a copy of the
+    helper's body (tail position: nothing of the caller runs afterwards).  The helper itself stays in the
+    model.  Undoes the refactoring "move the end of a function into a helper"."""
+    import copy as _copy
+    # call counts by bare name over the whole package
+    counts = {}
+    for m in mods.values():
+        for n in ast.walk(m.tree):
+            if isinstance(n, ast.Call):
+                nm = n.func.id if isinstance(n.func, ast.Name) else (n.func.attr if isinstance(n.func, ast.Attribute) else None)
+                if nm:
+                    counts[nm] = counts.get(nm, 0) + 1
+            elif isinstance(n, (ast.Name, ast.Attribute)) and not isinstance(getattr(n, 'ctx', None), ast.Store):
+                pass
+    # references that are not calls (function used as a value) forbid inlining
+    valrefs = {}
+    for m in mods.values():
+        callfuncs = {id(n.func) for n in ast.walk(m.tree) if isinstance(n, ast.Call)}
+        for n in ast.walk(m.tree):
+            if isinstance(n, ast.Name) and isinstance(n.ctx, ast.Load) and id(n) not in callfuncs:
+                valrefs[n.id] = valrefs.get(n.id, 0) + 1
+            elif isinstance(n, ast.Attribute) and isinstance(n.ctx, ast.Load) and id(n) not in callfuncs:
+                valrefs[n.attr] = valrefs.get(n.attr, 0) + 1
+
+    def eligible(g):
+        if g.decorator_list or g.args.vararg or g.args.kwarg or g.args.kwonlyargs or g.args.defaults \
+                or getattr(g.args, 'posonlyargs', None):
+            return False
+        for n in _scope_walk(g):
+            if isinstance(n, (ast.Yield, ast.YieldFrom, ast.Global, ast.Nonlocal, ast.Await)):
+                return False
+        return counts.get(g.name, 0) == 1 and not valrefs.get(g.name)
+
+    for m in mods.values():
+        top = {st.name: st for st in m.tree.body if isinstance(st, ast.FunctionDef)}
+        containers = [(None, m.tree.body)]
+        for st in m.tree.body:
+            if isinstance(st, ast.ClassDef):
+                containers.append((st, st.body))
+        for cls, body in containers:
+            meths = {st.name: st for st in body if isinstance(st, ast.FunctionDef)} if cls is not None else {}
+            for f in [st for st in body if isinstance(st, ast.FunctionDef)]:
+                for _ in range(3):      # helpers of helpers, bounded
+                    if not _inline_once(f, top, meths, eligible, _copy):
+                        break
+
+
+def _inline_once(f, top, meths, eligible, _copy):
+    captured = set()
+    for n in ast.walk(f):
+        if n is not f and isinstance(n, (ast.FunctionDef, ast.Lambda)):
+            captured |= {x.id for x in ast.walk(n) if isinstance(x, ast.Name)}
+
+    def splice(stmts):
+        for i, st in enumerate(stmts):
+            if isinstance(st, ast.Return) and isinstance(st.value, ast.Call) and not st.value.keywords \
+                    and not any(isinstance(a, ast.Starred) for a in st.value.args):
+                c = st.value
+                g = None
+                skip_self = False
+                if isinstance(c.func, ast.Name) and c.func.id in top and top[c.func.id] is not f:
+                    g = top[c.func.id]
+                elif isinstance(c.func, ast.Attribute) and isinstance(c.func.value, ast.Name) \
+                        and c.func.value.id == 'self' and c.func.attr in meths and meths[c.func.attr] is not f \
+                        and f.args.args and f.args.args[0].arg == 'self':
+                    g = meths[c.func.attr]
+                    skip_self = True
+                if g is not None and eligible(g):
+                    params = [a.arg for a in g.args.args]
+                    if skip_self:
+                        if not params or params[0] != 'self':
+                            g = None
+                        else:
+                            params = params[1:]
+                    if g is not None and len(params) == len(c.args):
+                        glocals = {p_ for p_, a_ in zip(params, c.args)
+                                   if not (isinstance(a_, ast.Name) and a_.id == p_)} | {
+                            x.id for x in _scope_walk(g) if isinstance(x, ast.Name) and isinstance(x.ctx, ast.Store)}
+                        if not (glocals & captured):
+                            new = []
+                            pairs = [(p_, a_) for p_, a_ in zip(params, c.args)
+                                     if not (isinstance(a_, ast.Name) and a_.id == p_)]
+                            if pairs:
+                                if len(pairs) == 1:
+                                    asg = ast.Assign(targets=[ast.Name(id=pairs[0][0], ctx=ast.Store())],
+                                                     value=pairs[0][1], type_comment=None)
+                                else:
+                                    asg = ast.Assign(
+                                        targets=[ast.Tuple(elts=[ast.Name(id=p_, ctx=ast.Store()) for p_, _a in pairs],
+                                                           ctx=ast.Store())],
+                                        value=ast.Tuple(elts=[a_ for _p, a_ in pairs], ctx=ast.Load()), type_comment=None)
+                                ast.copy_location(asg, st)
+                                ast.fix_missing_locations(asg)
+                                new.append(asg)
+                            body = [_copy.deepcopy(x) for x in g.body]
+                            if body and isinstance(body[0], ast.Expr) and isinstance(body[0].value, ast.Constant) \
+                                    and isinstance(body[0].value.value, str):
+                                body = body[1:]
+                            new += body
+                            if not new or not isinstance(new[-1], ast.Return):
+                                rn = ast.Return(value=ast.Constant(value=None))
+                                ast.copy_location(rn, st)
+                                ast.fix_missing_locations(rn)
+                                new.append(rn)
+                            stmts[i:i + 1] = new
+                            return True
+            for fld in ('body', 'orelse', 'finalbody'):
+                sub = getattr(st, fld, None)
+                if isinstance(sub, list) and not isinstance(st, (ast.FunctionDef, ast.ClassDef, ast.AsyncFunctionDef)):
+                    if splice(sub):
+                        return True
+            for h in getattr(st, 'handlers', []) or []:
+                if splice(h.body):
+                    return True
+        return False
+    return splice(f.body)
+
+
 class Model:
-    def __init__(self, repo=None):
+    def __init__(self, repo=None, inline=False):
         self.repo = repo or REPO
+        self._inline = inline
+        self._inl = None
         self.mods = {}          # dotted name -> Mod
         self.by_short = {}
         self.funcs = {}         # qname -> Func
         self.classes = {}       # qname -> Cls
         self.func_of_node = {}  # id(def node) -> Func
         self._load()
+        if inline:
+            _inline_tail_helpers(self.mods)
         self._index()
+
+    def inl(self):
+        """the same tree with single-use tail helpers spliced into their callers (see
+        _inline_tail_helpers): for rules that are anchored in one function and must see its whole tail"""
+        if self._inline:
+            return self
+        if self._inl is None:
+            self._inl = Model(self.repo, inline=True)
+        return self._inl
 
     # ------------------------------------------------------------------ load
     def _load(self):
@@ -452,21 +642,33 @@ def dispatch_targets(model, call, resolve_local):
     `{k: func, ...}.get(x)` / `{...}[x]` (dispatch table of functions or bound methods);
     [] if the call is not of that form or an entry does not resolve"""
     f = call.func
-    if not isinstance(f, ast.Name):
+
+    def as_dict(x):
+        if isinstance(x, ast.Dict):
+            return x
+        if isinstance(x, ast.Name):
+            vs = resolve_local(model, x)
+            if len(vs) == 1 and isinstance(vs[0], ast.Dict):
+                return vs[0]
+        return None
+    if isinstance(f, ast.Subscript) and not isinstance(f.slice, ast.Slice):
+        vals = [f]          # table[key](...)
+    elif isinstance(f, ast.Name):
+        vals = resolve_local(model, f)
+    else:
         return []
     out = []
-    vals = resolve_local(model, f)
     if not vals:
         return []
     for v in vals:
         d = None
         if isinstance(v, ast.Call) and isinstance(v.func, ast.Attribute) and v.func.attr == 'get' \
-                and isinstance(v.func.value, ast.Dict):
-            d = v.func.value
+                and as_dict(v.func.value) is not None:
+            d = as_dict(v.func.value)
             if len(v.args) > 1 and not (isinstance(v.args[1], ast.Constant) and v.args[1].value is None):
                 return []
-        elif isinstance(v, ast.Subscript) and isinstance(v.value, ast.Dict):
-            d = v.value
+        elif isinstance(v, ast.Subscript) and as_dict(v.value) is not None:
+            d = as_dict(v.value)
         if d is None:
             return []
         for e in d.values:
